@@ -4,8 +4,6 @@ from ..core import sx
 class C05(Prop):
     ID = "C05"
     THEOREMS = ["C05_search_tree_eq_scan", "C05_build_ok", "C05_search_built_eq_scan", "C05_build_empty"]
-    MODEL_ENTRY = 50
-    ORACLE_ENTRY = 51
     RULE = ("exhaustive over block counts n and fan-outs b (quick n<=40,b<=5; thorough n<=120 plus sizes around b^k up to 700, b<=9), "
             "three section layouts (one chromosome monotone ends, several chromosomes, non-monotone ends as in bigBed), "
             "queries starting/ending on every chosen section boundary and one base either side; "
